@@ -23,6 +23,10 @@ GET_SPEC = """requires wf(*self),
             None => !has_path(*self, *path),
         },"""
 
+PARENTS_SPEC = """requires wf(*self),
+        // the dependency set of the node registered under that path; none if the path is not registered
+        ensures match res { Some(d) => has_path(*self, *path) && d@ == self.graph@[self.index@[*path] as int].depends_on@, None => !has_path(*self, *path) },"""
+
 DEP_SPEC = """requires wf(*self),
         // true exactly if the path is registered and its node lists the target among its dependencies
         ensures res == (has_path(*self, *path) && self.graph@[self.index@[*path] as int].depends_on@.contains(*target)),"""
@@ -83,6 +87,25 @@ DEEP__LOOP = """invariant verif_i <= verif_elems.len(), wf(*self), 0 <= verif_k 
                 decreases verif_elems.len() - verif_i,"""
 
 NOREACH = "proof { if stack =~= Set::<u64>::empty() { lemma_closed_no_reach(self.graph@, visited@, *path, *target); } }"
+
+ANC_SPEC = """requires wf(*self),
+        // the ancestors of a path are exactly the paths reached from it along at least one dependency edge
+        ensures forall|x: u64| res@.contains(x) <==> reach_g(self.graph@, *path, x),"""
+
+ANC__SPEC = """requires wf(*self), anc_inv(self.graph@, old(ancestors)@, old(visited)@, stack, root), stack.subset_of(old(visited)@),
+            old(ancestors)@.subset_of(old(visited)@.insert(*path)), from_root(self.graph@, root, *path),
+        ensures old(visited)@.subset_of(final(visited)@), old(ancestors)@.subset_of(final(ancestors)@), final(visited)@.contains(*path),
+            anc_inv(self.graph@, final(ancestors)@, final(visited)@, stack, root), final(ancestors)@.subset_of(final(visited)@),
+        decreases unvisited(self.graph@, old(visited)@).len(),"""
+
+ANC__LOOP = """invariant verif_i <= verif_elems.len(), wf(*self), 0 <= verif_k < self.graph@.len(), self.graph@[verif_k].id == *path,
+                    %(ps)s@ == self.graph@[verif_k].depends_on@,
+                    forall|x: u64| #![trigger %(ps)s@.contains(x)] #![trigger verif_elems@.contains(x)] %(ps)s@.contains(x) <==> verif_elems@.contains(x),
+                    old(visited)@.insert(*path).subset_of(visited@), !old(visited)@.contains(*path), old(ancestors)@.subset_of(ancestors@),
+                    stack.subset_of(old(visited)@), from_root(self.graph@, root, *path),
+                    anc_inv(self.graph@, ancestors@, visited@, stack.insert(*path), root), ancestors@.subset_of(visited@),
+                    forall|j: int| 0 <= j < verif_i ==> ancestors@.contains(verif_elems@[j]),
+                decreases verif_elems.len() - verif_i,"""
 
 RENAME_SPEC = """requires wf(*old(self)), !has_path(*old(self), new), new != *old_path,   // the new path is not registered yet
         ensures wf(*final(self)), final(self).graph@.len() == old(self).graph@.len(),
@@ -160,6 +183,18 @@ def build(run):
             f.rename_fn('get_node__vacuity_probe')
             run.extra.setdefault('vacuity_probe_labels', []).append(f.label)
         f.contract(GET_SPEC.split('ensures')[0] + 'ensures false,' if probe else GET_SPEC)
+        unit.add(f)
+    # ---- parents (the dependency set of a path) (+ vacuity probe)
+    for probe in (False, True):
+        f = Snippet(g.fn('parents', impl=r'ModuleGraph'), 'vacuity-probe ModuleGraph::parents' if probe else 'ModuleGraph::parents')
+        mono(f)
+        rules.strip_vis_attrs(f)
+        f.rw('R5', r'\bSet<u64>', 'ErgSet', expect=1)
+        f.rw('R4', r'self\s*\.get_node\(path\)\s*\.map\(\|(\w+)\| &\1\.depends_on\)', r'match self.get_node(path) { Some(\1) => Some(&\1.depends_on), None => None }', expect=1)
+        if probe:
+            f.rename_fn('parents__vacuity_probe')
+            run.extra.setdefault('vacuity_probe_labels', []).append(f.label)
+        f.contract(PARENTS_SPEC.split('ensures')[0] + 'ensures false,' if probe else PARENTS_SPEC)
         unit.add(f)
     # ---- depends_on (direct dependency query) (+ vacuity probe)
     for probe in (False, True):
@@ -298,6 +333,59 @@ def build(run):
             }
             %s""" % NOREACH)
         f.insert_at(r'None => \{', "            " + NOREACH, where='after')
+        unit.add(f)
+    # ---- ancestors and its recursive worker (+ vacuity probes)
+    for probe in (False, True):
+        f = Snippet(g.fn('ancestors', impl=r'ModuleGraph'), 'vacuity-probe ModuleGraph::ancestors' if probe else 'ModuleGraph::ancestors')
+        mono(f)
+        rules.strip_vis_attrs(f)
+        f.rw('R5', r"<'p>", '', expect=1)
+        f.rw('R5', r"&'p ", '&', expect='+')
+        f.rw('R5', r'\bSet<&u64>', 'ErgSet', expect=1)
+        f.rw('R5', r'\bset! \{\}', 'ErgSet::new()', expect=2)
+        if probe:
+            f.rename_fn('ancestors__vacuity_probe')
+            run.extra.setdefault('vacuity_probe_labels', []).append(f.label)
+        f.contract(ANC_SPEC.split('ensures')[0] + 'ensures false,' if probe else ANC_SPEC)
+        f.insert_inline(r'self\.ancestors_\(path, &mut ancestors, &mut visited', ', Ghost(Set::<u64>::empty()), Ghost(*path)')
+        f.insert_before_tail("""        proof {
+            assert forall|x: u64| reach_g(self.graph@, *path, x) implies ancestors@.contains(x) by { lemma_anc_complete(self.graph@, ancestors@, visited@, *path, x); }
+        }""")
+        unit.add(f)
+    for probe in (False, True):
+        f = Snippet(g.fn('ancestors_', impl=r'ModuleGraph'), 'vacuity-probe ModuleGraph::ancestors_' if probe else 'ModuleGraph::ancestors_')
+        mono(f)
+        rules.strip_vis_attrs(f)
+        f.rw('R5', r"<'p>", '', expect=1)
+        f.rw('R5', r"&'p ", '&', expect='+')
+        f.rw('R5', r'\bSet<&u64>', 'ErgSet', expect=2)
+        f.rw('R5', r'\bvisited\.insert\(path\)', 'visited.insert(*path)', expect=1)
+        ml = re.search(r'if let Some\((\w+)\) = self\.parents\(path\) \{\s*for (\w+) in \1\.iter\(\) \{', make_mask(f.text))
+        if not ml:
+            raise Undecided("ModuleGraph::ancestors_: `if let Some(parents) = self.parents(path) { for parent in parents.iter() {` not found")
+        PS, PA = ml.group(1), ml.group(2)
+        f.rw('R11', r'for %s in %s\.iter\(\) \{' % (PA, PS), 'let verif_elems = w_set_elems(%s);\n            let mut verif_i: usize = 0;\n            while verif_i < verif_elems.len() {\n                let %s = &verif_elems[verif_i]; verif_i = verif_i + 1;' % (PS, PA), expect=1)
+        f.rw('R5', r'\bancestors\.insert\(%s\)' % PA, 'ancestors.insert(*%s)' % PA, expect=1)
+        if probe:
+            f.rename_fn('ancestors___vacuity_probe')
+            run.extra.setdefault('vacuity_probe_labels', []).append(f.label)
+        f.insert_ghost_params('Ghost(stack): Ghost<Set<u64>>, Ghost(root): Ghost<u64>')
+        f.contract(ANC__SPEC.split('ensures')[0] + 'ensures false,\n        decreases unvisited(self.graph@, old(visited)@).len(),' if probe else ANC__SPEC)
+        f.insert_at(r'let verif_elems = ', "            let ghost verif_k = self.index@[*path] as int;", where='before')
+        f.loop_spec(0, ANC__LOOP % {"ps": PS})
+        f.insert_at(r'verif_i = verif_i \+ 1;', "                proof { lemma_unvisited_dec(self.graph@, old(visited)@, visited@, verif_k); assert(verif_elems@.contains(*%(pa)s)); lemma_walk_append(self.graph@, root, verif_k, *%(pa)s); }" % {"pa": PA}, where='after')
+        f.insert_inline(r'self\.ancestors_\(%s, ancestors, visited' % PA, ', Ghost(stack.insert(*path)), Ghost(root)')
+        f.after_loop(0, """            proof {
+                // path is finished now: all its dependencies are collected
+                assert forall|i: int, d: u64| 0 <= i < self.graph@.len() && visited@.contains(#[trigger] self.graph@[i].id) && !stack.contains(self.graph@[i].id) && #[trigger] self.graph@[i].depends_on@.contains(d) implies ancestors@.contains(d) by {
+                    if self.graph@[i].id == *path {
+                        assert(self.index@[self.graph@[i].id] == i);
+                        assert(i == verif_k);
+                        assert(verif_elems@.contains(d));
+                        let j = choose|j: int| 0 <= j < verif_elems@.len() && verif_elems@[j] == d;
+                    }
+                }
+            }""")
         unit.add(f)
     # ---- get_mut_node (+ vacuity probe)
     for probe in (False, True):
